@@ -331,6 +331,47 @@ func runC06(c *Ctx) {
 			rawReport("rawreport-rand", c06GenStacks(r, kn), opts, i%2 == 0)
 		}
 	}
+	// numeric ranges that are NOT valid regular expressions ("+10", "+5kb:") together with the options
+	// whose known-finding classes the checker must still recognise (ignore on empty stacks, show_from and
+	// prune_from on repeated / shared inlined locations): a range is never handed to the regexp compiler
+	for i := 0; i < c.Budget(120, 3000); i++ {
+		opts := map[string]string{}
+		rg := PickS(r, []string{"+10", "+5kb:", ":+1024", "+1:+5000", "bytes=+512", "key=+1mb:"})
+		if r.Bool() {
+			opts["tagignore"] = rg
+		} else {
+			opts["tagfocus"] = rg
+		}
+		switch i % 4 {
+		case 0:
+			opts["ignore"] = PickS(r, c06Rx)
+		case 1:
+			opts["show_from"] = PickS(r, c06Rx)
+		case 2:
+			opts["prune_from"] = PickS(r, c06Rx)
+		default:
+			opts["show"] = PickS(r, c06Rx)
+		}
+		applyFocus("applyfocus-range-class", c06GenStacks(r, kn), opts)
+	}
+	// show_from on stacks that repeat ONE inlined location (shared Line slice trimmed once, seen at
+	// every occurrence) and on locations shared by several samples
+	knRep := kn
+	knRep.MaxLocs, knRep.MaxLines, knRep.MaxDepth, knRep.Unsym, knRep.Empty = 2, 3, 5, false, false
+	for i := 0; i < c.Budget(120, 3000); i++ {
+		p := c06GenStacks(r, knRep)
+		for _, l := range p.Location {
+			for len(l.Line) < 2 {
+				l.Line = append(l.Line, profile.Line{Function: p.Function[r.Intn(len(p.Function))], Line: int64(1 + r.Intn(9))})
+			}
+		}
+		sf := PickS(r, c06Rx)
+		if i%2 == 0 {
+			showFrom("showfrom-repeat", p, &sf)
+		} else {
+			applyFocus("showfrom-repeat", p, map[string]string{"show_from": sf})
+		}
+	}
 	// overlapping combinations: what one filter removes another one looks for
 	for i := 0; i < c.Budget(60, 1500); i++ {
 		x, y := PickS(r, c06Rx), PickS(r, c06Rx)
